@@ -7,10 +7,22 @@ package hash
 import (
 	"os"
 	"strconv"
+	"strings"
 )
 
-// RandSeed returns the pinned hash seed.
+var verifSeedCalls int
+
+// RandSeed returns the pinned hash seed: the k-th call returns the k-th value of
+// VERIF_HASHSEEDS if present, otherwise VERIF_HASHSEED.
 func RandSeed() (uint32, error) {
+	verifSeedCalls++
+	if l := os.Getenv("VERIF_HASHSEEDS"); l != "" {
+		parts := strings.Split(l, ",")
+		if verifSeedCalls <= len(parts) {
+			v, _ := strconv.ParseUint(parts[verifSeedCalls-1], 10, 32)
+			return uint32(v), nil
+		}
+	}
 	v, _ := strconv.ParseUint(os.Getenv("VERIF_HASHSEED"), 10, 32)
 	return uint32(v), nil
 }
